@@ -276,22 +276,23 @@ def d4(chk, prog):
     src_full = [("a", 0, 10, "s0"), ("a", 10, 20, "s1"), ("a", 12, 15, "s2"), ("a", 30, 40, "s3"), ("c", 0, 5, "s4")]
     dests = {"two hits / one hit / none / other chromosome": [("a", 5, 14, 0), ("a", 35, 36, 0), ("a", 20, 30, 0), ("b", 0, 100, 0), ("c", 0, 1, 0)],
              "single destination row": [("a", 0, 100, 0)], "empty destination": []}
-    for (dlabel, drows), (slabel, srows) in itertools.product(dests.items(), (("five source rows", src_full), ("empty source", []))):
+    for (dlabel, drows), (slabel, srows), summ in itertools.product(dests.items(), (("five source rows", src_full), ("empty source", [])), ("given function", "none given")):
         W.reset()
         it = Interp(prog)
         dl = [7, 3, 11, 2, 5][:len(drows)]
         dest = mkt(drows, dl)
         src = mkt(srows, [20 + i for i in range(len(srows))])
-        out = tbk.guard(lambda: it.run(fi.qn, [src, dest, "v", "DEFAULT", (lambda ser: ("SUMMARY",) + tuple(ser.v))]), f"{dlabel} / {slabel}")
+        # (no summary function given: chosen from the first element's type -- a string column is comma-joined; an empty source has no first element)
+        out = tbk.guard(lambda: it.run(fi.qn, [src, dest, "v", "DEFAULT", (lambda ser: ("SUMMARY",) + tuple(ser.v)) if summ == "given function" else None]), f"{dlabel} / {slabel} / summary {summ}")
         if out is None:
             continue
         want = []
         for c, s_, e_, _ in drows:
             hits = [r[3] for r in srows if r[0] == c and r[2] > s_ and r[1] < e_]
-            want.append("DEFAULT" if not hits else (hits[0] if len(hits) == 1 else ("SUMMARY",) + tuple(hits)))
+            want.append("DEFAULT" if not hits else (hits[0] if len(hits) == 1 else (("SUMMARY",) + tuple(hits) if summ == "given function" else ",".join(dict.fromkeys(hits)))))
         ok = isinstance(out, Vec) and list(out.v) == want and (out.fresh or out.aligned)
         labelled = isinstance(out, Vec) and (out.labels == dl or (not drows and not out.v))
-        tbk.cell(ok and labelled, dict(destination=dlabel, source=slabel, values=list(out.v) if isinstance(out, Vec) else repr(out)[:80], want=want,
+        tbk.cell(ok and labelled, dict(destination=dlabel, source=slabel, summary=summ, values=list(out.v) if isinstance(out, Vec) else repr(out)[:80], want=want,
                                        result_labels=getattr(out, "labels", None), destination_labels=dl))
     # the GenomicArray method: same contract, also when the column is missing (every range gets the default)
     fm = prog.fn("skgenome.gary.GenomicArray.into_ranges")
@@ -468,7 +469,8 @@ def d7(chk, prog):
                                    [("a", 5, 12), ("a", 28, 55), ("b", 0, 10), ("b", 20, 30), ("b", 40, 50), ("c", 0, 5), ("a", 70, 80)]),
                                   # rows nested inside a long one: the last row (by start) ends before the long row does, ends are not monotone
                                   ("nested rows", [("a", 0, 100), ("a", 10, 20), ("a", 30, 35), ("c", 0, 50), ("c", 5, 15)],
-                                   [("a", 12, 18), ("a", 40, 60), ("a", 33, 99), ("a", 100, 120), ("a", 0, 5), ("c", 20, 30), ("c", 50, 60)])):
+                                   # (several query ranges start at 0, "no lower bound" to the code: each starts from all rows again)
+                                   [("a", 0, 5), ("a", 0, 15), ("a", 0, 200), ("a", 12, 18), ("a", 33, 99), ("a", 40, 60), ("a", 100, 120), ("c", 0, 3), ("c", 0, 60), ("c", 20, 30), ("c", 50, 60)])):
         _d7_layout(chk, prog, layout, lits, queries)
 
 
